@@ -77,7 +77,7 @@ def analyse(ctx, case, run, S):
             groups.append(['elem_%d' % ks[e] for e in list(range(nd1)) + [nd1 + 3, nd1 + 4]])
             group_elems = list(range(nd1)) + [nd1 + 3, nd1 + 4]
         # (1) residual == sum_i w_i R_i with pairwise distinct weight variables
-        compare_residual(ctx, run, S, cfg, run.form(ev['detail']['a']), total, '%s %s' % (case['name'], v['action']), 'C08:weighted-sum', pred='tampered_accepted_offsetting')
+        compare_residual(ctx, run, S, cfg, run.form(ev['detail']['a']), total, '%s %s' % (case['name'], v['action']), 'C08:weighted-sum', pred='batch_relation_disagrees')
         # (3) derivation of the weights: every response scalar of every member is determined by what the weight RNG hashes
         inj = Injectivity(run)
         st = run.core['rng_states'][sid]
